@@ -51,3 +51,14 @@ Theorem C20_unsized_order_refuted :
     st = StEOF /\ first_requests [] loads <> tl (preorder b).
 Proof. exact unsized_order_refuted. Qed.
 Print Assumptions C20_unsized_order_refuted.
+
+(* reference-written files in the trickle layout (File/Trickle.v; raw leaves, no empty chunk): a full sequential read requests
+   the blocks in the depth-first, link-order walk *)
+From UV Require Import File.Builder File.BuilderProofs File.BuilderProofs3 File.Trickle File.TrickleProofs.
+Theorem C20_reference_trickle_read_order : forall (W : nat) (chunks : list bytes), (1 <= W)%nat -> chunks <> [] -> Forall nonempty chunks -> (blen (concat chunks) < bound63)%N ->
+  let b := fst (trickle_layout W chunks) in
+  sloads (stream nofault b 0) = tl (preorder b).
+Proof.
+  intros W chunks HW Hne Hs Hb b. destruct (trickle_qualifies W chunks HW Hne Hs Hb) as [H1 H2]. exact (read_order b H1 H2).
+Qed.
+Print Assumptions C20_reference_trickle_read_order.
